@@ -87,7 +87,10 @@ func isTrustedProxy(remoteIP *string, trustedProxyCIDRs []*net.IPNet) bool {
 	if ip == nil {
 		return false
 	}
-	if len(trustedProxyCIDRs) == 0 {
+	// nil means no CIDR list was configured (every proxy is trusted). A
+	// configured list whose entries were all invalid parses to an empty,
+	// non-nil slice and must trust nobody.
+	if trustedProxyCIDRs == nil {
 		return true
 	}
 	for _, cidr := range trustedProxyCIDRs {
